@@ -44,5 +44,24 @@ let build_cmd cmd tk = match cmd with
         | PrepCrash k -> Printf.sprintf "crash %d" (int_of_nat k)
         | PrepIncomparable -> "incomparable"
         | PrepFuel -> "fuel")
+  | "B_CYCLE" ->
+      (* ensure_no_dataflow_cycles on the input delays of the scenario built so far (independent of the ancestors closure) *)
+      let sc_gt = !gt in
+      let group_of = (fun i -> nat_of_int (try Hashtbl.find groups (int_of_nat i) with Not_found -> 0)) in
+      Some (match build sc_gt group_of !conns with
+        | BScenarioError k -> Printf.sprintf "scenario_error %d" (int_of_nat k)
+        | BCrash k -> Printf.sprintf "crash %d" (int_of_nat k)
+        | BOk t ->
+            (match cycle_check (nat_of_int 5000) t.t_indel (List.init !n nat_of_int) with
+             | CycAccepted -> "accepted"
+             | CycRejected p -> "rejected " ^ String.concat " " (List.map (fun x -> string_of_int (int_of_nat x)) p)
+             | CycIncomparable -> "incomparable"
+             | CycFuel -> "fuel"))
+  | "B_WALK" ->
+      let p = next_list next_nat tk in
+      let group_of = (fun i -> nat_of_int (try Hashtbl.find groups (int_of_nat i) with Not_found -> 0)) in
+      Some (match build !gt group_of !conns with
+        | BOk t -> (match walk_delay t.t_indel p with None -> "nowalk" | Some d -> if izero d then "zero" else "nonzero")
+        | _ -> "nobuild")
   | "B_DUMP" -> Some (match !last_tables with Some (t, anc) -> dump t anc | None -> "none")
   | _ -> None
